@@ -22,13 +22,51 @@ def reaches(p, src, dst):
 
 
 def graph_of(p):
+    amap = dict((a[0], a[1]) for a in p.get("aliases", []))      # alias names that have been re-bound to another function
     g = []
     for n in p["nodes"]:
         if n["kind"] in ("mem", "plain"):
             g.append({"name": n["name"], "kind": n["kind"],
-                      "refs": [q["to"] for q in n["refs"] if q["to"][0] not in "vu"],
+                      "refs": [(amap.get("alias_" + q["to"], q["to"]) if q.get("form") == "alias" else q["to"])
+                               for q in n["refs"] if q["to"][0] not in "vu"],
                       "hidden": list(n.get("hidden", []))})
     return g
+
+
+def evolving_job(r):
+    """the reference graph changes while the process lives: an alias name the functions call through is re-bound to another
+    existing memento function (nothing is re-defined); dependencies() must describe the graph as it is now.  In half of the
+    programs every callee carries the same explicit version, so that the re-binding leaves every VERSION unchanged."""
+    import copy
+    from . import check_version
+    for _ in range(60):
+        p0 = vprogs.random_prog(r, nmem=r.choice([3, 4]), nplain=1, nvar=1, hidden_p=0.0, forms=("alias", "alias", "bare"), acyclic=True)
+        if r.random() < 0.5:
+            # (a function with an explicit version is not analysed - by design its reference is static - so only functions
+            #  that refer to nothing get one: they stay inside the domain of the property)
+            for n in p0["nodes"]:
+                if n["kind"] == "mem" and n["name"] != "m1" and not [q for q in n["refs"] if q["to"][0] not in "vu"]:
+                    n["explicit"] = "1"
+                    n["refs"] = []
+        p = copy.deepcopy(p0)
+        if not check_version.reaches_alias(p, "m1"):
+            continue
+        mems = [n["name"] for n in p["nodes"] if n["kind"] == "mem"]
+        steps = [{"do": "proc", "hashseed": "0"}] + [{"do": "deps", "name": m_} for m_ in mems]
+        graphs = []
+        ok = True
+        for _round in range(r.choice([1, 2])):
+            if not check_version.alias_rebind(r, p, steps, False):
+                ok = False
+                break
+            graphs.append(graph_of(p))
+            order = list(mems)
+            r.shuffle(order)
+            steps += [{"do": "deps", "name": m_} for m_ in order]
+        if not ok and not graphs:
+            continue
+        return {"prog": p0, "steps": steps, "graphs": graphs}
+    return None
 
 
 def small_graphs(r, quick):
@@ -64,6 +102,10 @@ def run_body(rep, r, wd, quick):
     for p in progs_:
         mems = [n["name"] for n in p["nodes"] if n["kind"] == "mem"]
         jobs.append({"prog": p, "steps": [{"do": "proc", "hashseed": "0"}] + [{"do": "deps", "name": m_} for m_ in mems]})
+    for _ in range(30 if quick else 300):
+        j = evolving_job(r)
+        if j:
+            jobs.append(j)
     nenf = 40 if quick else 800
     for i in range(nenf):                           # enforcement: acyclic programs with hidden dynamic calls
         p = vprogs.random_prog(r, nmem=r.choice([3, 4]), nplain=r.choice([1, 2]), nvar=1, hidden_p=0.7,
@@ -94,7 +136,20 @@ def run_body(rep, r, wd, quick):
     payload = []
     for j, t in zip(jobs, traces):
         evs = []
+        # (a re-bound alias changes the graph: the monitor is told where in the history that happened)
+        marks, seen, gi = {}, 0, 0
+        for st in j["steps"]:
+            if st["do"] in ("deps", "call"):
+                seen += 1
+            elif st["do"] == "alias" and j.get("graphs"):
+                marks[seen] = j["graphs"][min(gi, len(j["graphs"]) - 1)]
+                gi += 1
+        nobs = 0
         for e in t["ev"]:
+            if nobs in marks and e["op"] in ("deps", "call"):
+                evs.append({"op": "graph", "graph": marks.pop(nobs), "exc": "", "passed": []})
+            if e["op"] in ("deps", "call"):
+                nobs += 1
             d = {k: v for k, v in e.items() if k in ("op", "name", "exc", "trans", "direct", "edges", "how", "passed")}
             d.setdefault("exc", "")
             d.setdefault("passed", [])
